@@ -311,7 +311,7 @@ AbsTrace == [pre |-> AbsState(shape), reqs |-> TraceReqs(AbsState(shape), reqs),
 CaseJson ==
   [shape |-> shape, insfn |-> insfn,
    reqs |-> [q \in 1..Len(reqs) |->
-               [op |-> reqs[q].op, sec |-> 0, blk |-> reqs[q].blk - 1, off |-> reqs[q].off,
+               [op |-> reqs[q].op, sec |-> 0, blk |-> IF reqs[q].op = "insall" THEN 0 ELSE reqs[q].blk - 1, off |-> reqs[q].off,
                 len |-> reqs[q].len, proxy |-> reqs[q].proxy,
                 patch |-> IF reqs[q].pk = "bytes" THEN [kind |-> "bytes", k |-> q, tgt |-> "b1"]
                           ELSE [kind |-> reqs[q].pk, k |-> q, tgt |-> "b1"]]]]
